@@ -10,6 +10,8 @@ int FB_SEG(const struct SYM* self, int view, int seg) { struct VS c; c.view_num 
 #include "K_is_basic.c"
 #include "K_find_basic_vs_nums_in_subset.c"
 #include "K_get_subset_num.c"
+#include "K_balanced_count.c"
+#include "K_balanced_verdict.c"
 
 static void mk_sym(struct SYM* s)
 {
@@ -103,4 +105,17 @@ void h_lemma_schedule(void)
   g_a = (b.subiteration_num - 1) % b.num_subsets;
   int sb = K_get_subset_num(&b);
   __CPROVER_assert(sa != sb, "two different sub-iterations of one full iteration use different subsets");
+}
+
+void h_K_balanced_count(void)
+{
+  struct PDI* p;
+  g_view = nondet_int(); g_seg = nondet_int(); g_isbasic = nondet_bool(); g_sub = nondet_int(); g_nrel = nondet_int(); out_n = 0; out_ghost = 0; g_add_bad = 0;
+  K_balanced_count(p, nondet_int(), nondet_int());
+}
+void h_K_balanced_verdict(void)
+{
+  int* a;
+  g_sub = nondet_int(); g_w = nondet_int();
+  K_balanced_verdict(a, nondet_int());
 }
